@@ -761,7 +761,7 @@ class Event:
         if self.tag_name is not None or self.tag_wav_name is not None:
             file.write(b'\x01')
             file.write(struct.pack(
-                '<Bhh', True,
+                '<hh',
                 add_to_pool(self.tag_name or ''),
                 add_to_pool(self.tag_wav_name or '')
             ))
